@@ -396,6 +396,20 @@ theorem tc_cond_branches (Γ : Env) (ln : Ln) (c t e : Expr) (cc ct ce : Comb) (
     tc Γ (.cond ln c t e) = .error ⟨ln, r⟩ := by
   simp [tc, hc, ht, he, hb, hcmp]
 
+/-- the two branches of `if let (En::it = e) t else f` are compared the same way -/
+theorem tc_iflet_branches (Γ : Env) (ln gln : Ln) (en it : String) (e t f : Expr) (ce ct cf : Comb) (r : Rule)
+    (he : tc Γ e = .ok ce) (hen : ce.ct = .val (.enum en)) (hg : guardItemPre Γ gln en it = .ok ())
+    (ht : tc Γ t = .ok ct) (hf : tc Γ f = .ok cf) (hcmp : combCmp ct.ct cf.ct = .error r) :
+    tc Γ (.ifLet ln gln en it e t f) = .error ⟨ln, r⟩ := by
+  simp [tc, he, hen, hg, ht, hf, hcmp]
+
+/-- … and the guard must name the enum of the tested value -/
+theorem tc_iflet_other_enum (Γ : Env) (ln gln : Ln) (en en' it : String) (e t f : Expr) (ce ct cf : Comb)
+    (he : tc Γ e = .ok ce) (hen : ce.ct = .val (.enum en')) (hg : guardItemPre Γ gln en it = .ok ())
+    (ht : tc Γ t = .ok ct) (hf : tc Γ f = .ok cf) (hne : en' ≠ en) :
+    tc Γ (.ifLet ln gln en it e t f) = .error ⟨ln, .matchGuardDiffers⟩ := by
+  simp [tc, he, hen, hg, ht, hf, hne]
+
 /-- two tuple types whose member lists `param_list_cmp` tells apart are not unified -/
 theorem combCmp_tuple (ms1 ms2 : TyList) (h : paramListCmp false ms1 ms2 = false) :
     combCmp (.val (.tuple ms1)) (.val (.tuple ms2)) = .error .condBranches := by
